@@ -55,7 +55,18 @@ func (a affine) String() string {
 // afEval evaluates a time.Time / time.Duration SSA value symbolically. atom
 // names values the rule wants to treat as opaque atoms.
 func afEval(v ssa.Value, atom func(ssa.Value) (string, bool), depth int) affine {
+	return afEvalEnv(v, atom, depth, nil)
+}
+
+// afEvalEnv: env gives the value of the parameters of a first-party helper that is being looked
+// through (the affine value of the corresponding argument at its call site).
+func afEvalEnv(v ssa.Value, atom func(ssa.Value) (string, bool), depth int, env map[*ssa.Parameter]affine) affine {
 	bad := affine{}
+	if prm, ok := v.(*ssa.Parameter); ok && env != nil {
+		if a, ok := env[prm]; ok {
+			return a
+		}
+	}
 	if depth > 16 || v == nil {
 		return bad
 	}
@@ -73,7 +84,7 @@ func afEval(v ssa.Value, atom func(ssa.Value) (string, bool), depth int) affine 
 		return bad
 	case *ssa.UnOp:
 		if x.Op == token.SUB {
-			a := afEval(x.X, atom, depth+1)
+			a := afEvalEnv(x.X, atom, depth+1, env)
 			if !a.OK || a.Base != "" {
 				return bad
 			}
@@ -87,7 +98,7 @@ func afEval(v ssa.Value, atom func(ssa.Value) (string, bool), depth int) affine 
 			// load of a local with a single store
 			if al, ok := x.X.(*ssa.Alloc); ok {
 				if st := storesTo(al); len(st) == 1 {
-					return afEval(st[0].Val, atom, depth+1)
+					return afEvalEnv(st[0].Val, atom, depth+1, env)
 				}
 			}
 		}
@@ -96,7 +107,7 @@ func afEval(v ssa.Value, atom func(ssa.Value) (string, bool), depth int) affine 
 		// "offset is zero when absent": phi(0, d) evaluates to d
 		var res *affine
 		for _, e := range x.Edges {
-			a := afEval(e, atom, depth+1)
+			a := afEvalEnv(e, atom, depth+1, env)
 			if !a.OK {
 				return bad
 			}
@@ -115,8 +126,8 @@ func afEval(v ssa.Value, atom func(ssa.Value) (string, bool), depth int) affine 
 		return *res
 	case *ssa.Call:
 		if callIs(x, "time", "(Time).Add") {
-			t := afEval(x.Call.Args[0], atom, depth+1)
-			d := afEval(x.Call.Args[1], atom, depth+1)
+			t := afEvalEnv(x.Call.Args[0], atom, depth+1, env)
+			d := afEvalEnv(x.Call.Args[1], atom, depth+1, env)
 			if !t.OK || !d.OK || d.Base != "" {
 				return bad
 			}
@@ -129,11 +140,43 @@ func afEval(v ssa.Value, atom func(ssa.Value) (string, bool), depth int) affine 
 			}
 			return out
 		}
+		// a small first-party helper with one result: the value all its returns agree on
+		// (a zero result on some path is "absent", as for a phi)
+		if callee := staticCallee(x); callee != nil && callee.Blocks != nil && len(callee.Blocks) <= 12 && depth < 8 &&
+			callee.Pkg != nil && strings.HasPrefix(callee.Pkg.Pkg.Path(), modPath) && callee.Signature.Results().Len() == 1 {
+			sub := map[*ssa.Parameter]affine{}
+			for i, prm := range callee.Params {
+				if i < len(x.Call.Args) {
+					if a := afEvalEnv(x.Call.Args[i], atom, depth+1, env); a.OK {
+						sub[prm] = a
+					}
+				}
+			}
+			var res *affine
+			for _, ret := range returnsOf(callee) {
+				a := afEvalEnv(ret.Results[0], atom, depth+1, sub)
+				if !a.OK {
+					return bad
+				}
+				if len(a.Coeff) == 0 && a.Base == "" {
+					continue
+				}
+				if res != nil && res.String() != a.String() {
+					return bad
+				}
+				aa := a
+				res = &aa
+			}
+			if res == nil {
+				return affine{Coeff: map[string]int{}, OK: true}
+			}
+			return *res
+		}
 		return bad
 	case *ssa.ChangeType:
-		return afEval(x.X, atom, depth+1)
+		return afEvalEnv(x.X, atom, depth+1, env)
 	case *ssa.Convert:
-		return afEval(x.X, atom, depth+1)
+		return afEvalEnv(x.X, atom, depth+1, env)
 	}
 	return bad
 }
